@@ -111,7 +111,7 @@ class Profile:
     def __init__(self, doc=None, p_doc_mostly=False, max_items=8, depth=3, kinds=None, body_max=4,
                  dangling=True, classes=True, tests=True, groups=True, moddoc=True, parseargs=True,
                  moddoc_indent=None, set_values=None, option_help=None, weights=None, generic_cmds=None,
-                 arg_pool=None, group_depth=2, max_args=4, min_items=0):
+                 arg_pool=None, group_depth=2, max_args=4, min_items=0, impl_doc=False, nest_all=False):
         self.doc = doc if doc is not None else benign_doc()
         self.p_doc_mostly = p_doc_mostly
         self.max_items = max_items
@@ -133,6 +133,8 @@ class Profile:
         self.group_depth = group_depth
         self.max_args = max_args
         self.min_items = min_items
+        self.impl_doc = impl_doc          # implementing definitions may carry a doccomment of their own
+        self.nest_all = nest_all          # tests and classes may also sit inside function/macro bodies
 
     def mdoc(self):
         return maybe(self.doc, 0.2 if self.p_doc_mostly else 0.5)
@@ -140,11 +142,14 @@ class Profile:
 
 def _impl(p, depth, kind):
     body_kinds = "body-test" if kind in ("test", "section") else "body"
-    return st.fixed_dictionaries({
+    d = {
         "cmd": st.sampled_from(["function", "function", "macro"]),
         "params": st.lists(ident(), min_size=0, max_size=5),   # after name (and self for members)
         "body": items(p, depth - 1, body_kinds, p.body_max),
-    })
+    }
+    if p.impl_doc:
+        d["doc"] = weighted((4, st.none()), (1, p.doc))
+    return st.fixed_dictionaries(d)
 
 
 def item(p, depth, ctx):
@@ -185,7 +190,7 @@ def item(p, depth, ctx):
                                                          p.body_max)}))
     if want("parseargs") and p.parseargs:
         alts.append(st.fixed_dictionaries({"k": st.just("parseargs"), "args": arglist(1, 4)}))
-    if want("class") and p.classes and sub and ctx in ("top", "class", "block"):
+    if want("class") and p.classes and sub and (ctx in ("top", "class", "block") or p.nest_all):
         alts.append(st.fixed_dictionaries({"k": st.just("class"), "name": ident(),
                                            "bases": st.lists(ident(), max_size=3), "doc": p.mdoc(),
                                            "body": items(p, depth - 1, "class", p.body_max + 2)}))
@@ -200,7 +205,7 @@ def item(p, depth, ctx):
                                                          max_size=4),
                                        "doc": p.mdoc(), "impl": _impl(p, depth, "member")})
             alts += rep(m, 5)
-    if want("test") and p.tests and sub and ctx in ("top", "block", "class"):
+    if want("test") and p.tests and sub and (ctx in ("top", "block", "class") or p.nest_all):
         alts.append(_testlike(p, depth, "test"))
     if want("section") and p.tests and sub and ctx == "body-test":
         s = _testlike(p, depth, "section")
@@ -366,6 +371,8 @@ def _fin_items(lst, c, in_body):
             it["doc"] = _fin_doc(it["doc"], c)
             impl = dict(it["impl"])
             impl["params"] = _num(impl["params"], c)
+            if impl.get("doc") is not None:
+                impl["doc"] = _fin_doc(impl["doc"], c)
             impl["body"] = _fin_items(impl["body"], c, True)
             it["impl"] = impl
         elif k == "addtest":
@@ -423,6 +430,12 @@ def finalize(skel):
 
 
 # ------------------------------------------------------------------ helpers over finished ASTs
+
+def impl_name(it):
+    """Name argument of the definition implementing a member/test declaration (as CMakePP/CMakeTest write it)."""
+    import re
+    return "${" + re.sub(r"[^A-Za-z0-9_]", "_", it["name"].strip('"${}[]=')) + "}"
+
 
 def walk(items_, depth=0, parent=None):
     """Pre-order over all items incl. bodies and implementations: yields (item, depth, parent)."""
